@@ -4,7 +4,7 @@
 
    A document is a sequence of trees.  Leaves: "txt" (a word) and "img" (media with a target: img, video,
    audio, iframe); further leaves without a number: "imgx" (media without a source: its text only), "hr",
-   "br", "long" (a word longer than a line).  Further inner nodes without a number: "ax" (anchor without
+   "br", "long" (a word longer than a line), "wide" (white space only, wider than a line, between line breaks).  Further inner nodes without a number: "ax" (anchor without
    href), "pre", "unk" (unknown element).  Inner nodes: "a" (hyperlink with a target), "sty" (inline style), "blk" (an indenting
    block: blockquote, list, heading).  Reading the rendering left to right yields *marks*: the words
    (tokens) and the superscript numbers.  Every link-bearing node owns exactly one number, printed after
@@ -26,7 +26,7 @@ RenderSeq(variant, kids, st) == FoldLeft(LAMBDA acc, k : RenderNode(variant, k, 
 RenderNode(variant, n, st) ==
     CASE n.t = "txt" -> [st EXCEPT !.marks = Append(@, [t |-> "tok"])]
       [] n.t = "imgx" -> [st EXCEPT !.marks = Append(@, [t |-> "tok"])]
-      [] n.t \in {"hr", "br", "long"} -> st
+      [] n.t \in {"hr", "br", "long", "wide"} -> st
       [] n.t = "img" -> [links |-> st.links + 1,
                          marks |-> st.marks \o <<[t |-> "tok"], [t |-> "lab", n |-> st.links + 1, owner |-> st.links + 1]>>]
       [] n.t = "a"   -> LET own == st.links + 1
